@@ -47,6 +47,7 @@ import io
 import json
 import os
 import subprocess
+import sys
 
 import core
 from lts import LTS, skey, strip
@@ -81,6 +82,9 @@ def rand_meta(rng, wide=False):
 def non_nl(rng, n, canonical=False):
     if canonical:
         return b"x" * n
+    if n > 96:                       # big payloads: a random 61-byte pattern repeated (no newline in it)
+        pat = non_nl(rng, 61)
+        return (pat * (n // 61 + 1))[:n]
     out = []
     for _ in range(n):
         if rng.random() < 0.6:
@@ -91,13 +95,40 @@ def non_nl(rng, n, canonical=False):
     return b"".join(out)
 
 
+# member names as text: (name bytes in the header, encoding, errors) -> the str ArFile must report is
+# raw.decode(encoding or sys.getfilesystemencoding(), errors or 'surrogateescape') (documented in
+# ArFile.__init__).  Not NFC/NFKC-stable text, case-mapping hazards, BOM / zero-width / non-BMP
+# characters, NBSP, every UTF-8 trailing byte 0x80..0xBF in final position, latin-1 and invalid bytes.
+def exotic_names(rng):
+    tail = chr(0x400 + rng.randrange(64))            # encodes as D0 80..D0 BF
+    texts = ["\u00e9.txt", "e\u0301.txt", "\u212b", "\u00c5", "\ufb01le", "\uff21", "\u00df", "\u0130\u0131",
+             "\ufeffa", "a\ufeffb", "a\u200db", "\U0001f600.deb", "x" + tail, tail + "x" + tail, "a\u00a0b", "b\u00a0",
+             "a b", "\u1100\u1161", "\uac00", "\u03c3\u03c2", "\u017f", "\U0010ffff"]
+    out = [(t.encode("utf-8"), None, None) for t in texts]
+    out += [(t.encode("utf-8"), "utf-8", None) for t in texts[:6]]
+    out += [(b"caf\xe9", "latin-1", None), (b"\xe9\xe8\x85", "latin-1", None), (b"caf\xe9", None, None),
+            (b"\xff\xfe", None, None), (b"caf\xe9", "utf-8", "replace"), (b"caf\xe9", "utf-8", "ignore"),
+            (b"caf\xe9", "ascii", "surrogateescape"), (b"\xd0", None, None)]
+    return [x for x in out if len(x[0]) <= 15]
+
+
+def decode_name(raw, encoding, errors):
+    return raw.decode(encoding or sys.getfilesystemencoding(), errors or "surrogateescape")
+
+
+def name_hex(s):
+    """names are logged as code-point hex strings in traces (lone surrogates are not valid JSON text)"""
+    return ".".join("%x" % ord(c) for c in s) if isinstance(s, str) else "not-a-str:%r" % (s,)
+
+
 def header(m, style):
-    name = m["name"].encode("ascii")
+    name = m["raw"] if m.get("raw") is not None else m["name"].encode("ascii")
     if style == "gnu" and len(name) < 16:
         name += b"/"
-    h = b"%-16s%-12d%-6d%-6d%-8o%-10d`\n" % (name, m["mtime"], m["owner"], m["group"], m["mode"], len(m["data"]))
+    fmt = b"%-16s%012d%06d%06d%-8o%-10d`\n" if m.get("zeros") else b"%-16s%-12d%-6d%-6d%-8o%-10d`\n"
+    h = fmt % (name, m["mtime"], m["owner"], m["group"], m["mode"], len(m["data"]))
     if len(h) != 60:
-        raise core.MachineryError("ar writer: header of %d bytes for %r" % (len(h), m))
+        raise core.MachineryError("ar writer: header of %d bytes for %r" % (len(h), m["name"]))
     return h
 
 
@@ -162,9 +193,11 @@ class Arch:
     """a concrete archive: blob + what was written into it. For by-name mode it is stored under one
     of the re-used pool paths (or under `path` when the caller manages the file itself)."""
 
-    def __init__(self, members, style="gnu", blob=None, path=None):
+    def __init__(self, members, style="gnu", blob=None, path=None, encoding=None, errors=None):
         self.members = members
         self.style = style
+        self.encoding = encoding     # passed to ArFile(...) when not None
+        self.errors = errors
         self.blob = build_ar(members, style) if blob is None else blob
         self.path = path
         self.slot = None
@@ -180,49 +213,70 @@ class Arch:
         pass                         # pool paths are re-used on purpose; ctx.work is removed at exit
 
     def to_json(self):
-        j = {"blob": self.blob, "style": self.style, "members": [dict(m) for m in self.members]}
+        j = {"blob": self.blob, "style": self.style, "members": [dict(m) for m in self.members],
+             "encoding": self.encoding, "errors": self.errors}
         if self.history:
             j["history"] = [list(h) for h in self.history]
         return j
 
     @classmethod
     def from_json(cls, j):
-        a = cls(j["members"], j["style"], blob=j["blob"])
+        a = cls(j["members"], j["style"], blob=j["blob"], encoding=j.get("encoding"), errors=j.get("errors"))
         a.history = [list(h) for h in j.get("history", [])]
         return a
 
 
 # ------------------------------------------------------------------ driving the real objects
 
-def do_call(f, op, args):
-    """one call on an ArMember or an io.BytesIO; any exception is an observation"""
+# Public variants of one abstract call (API surface): the expectation is that of the abstract call.
+# Variant 0 is the base form and the only one used on the io.BytesIO reference.
+VARIANTS = {
+    "read": [lambda f, a: f.read()],
+    "readn": [lambda f, a: f.read(a[0]), lambda f, a: f.read(size=a[0])],
+    "readline": [lambda f, a: f.readline(), lambda f, a: f.next(), lambda f, a: next(iter(f), b""),
+                 lambda f, a: f.readline(None), lambda f, a: f.readline(size=None)],
+    "readlinen": [lambda f, a: f.readline(a[0]), lambda f, a: f.readline(size=a[0])],
+    "readlines": [lambda f, a: f.readlines(), lambda f, a: f.readlines(0), lambda f, a: f.readlines(-1),
+                  lambda f, a: f.readlines(None), lambda f, a: f.readlines(sizehint=0)],
+    "readlinesh": [lambda f, a: f.readlines(a[0]), lambda f, a: f.readlines(sizehint=a[0])],
+    "iter": [lambda f, a: list(f), lambda f, a: [line for line in f]],
+    "seek": [lambda f, a: f.seek(a[0], a[1]), lambda f, a: f.seek(offset=a[0], whence=a[1]),
+             lambda f, a: f.seek(a[0]) if a[1] == 0 else f.seek(a[0], a[1]),
+             lambda f, a: f.seek(a[0], whence=a[1])],
+    "tell": [lambda f, a: f.tell()],
+}
+VARIANT_TEXT = {
+    "read": ["read()"], "readn": ["read(%s)", "read(size=%s)"],
+    "readline": ["readline()", "next()", "next(iter(m), b'')", "readline(None)", "readline(size=None)"],
+    "readlinen": ["readline(%s)", "readline(size=%s)"],
+    "readlines": ["readlines()", "readlines(0)", "readlines(-1)", "readlines(None)", "readlines(sizehint=0)"],
+    "readlinesh": ["readlines(%s)", "readlines(sizehint=%s)"], "iter": ["list(m)", "[line for line in m]"],
+    "seek": ["seek(%s, %s)", "seek(offset=%s, whence=%s)", "seek(%s[, %s])", "seek(%s, whence=%s)"], "tell": ["tell()"],
+}
+BYTES_OPS = ("read", "readn", "readline", "readlinen")
+LIST_OPS = ("readlines", "readlinesh", "iter")
+_via = [0]
+
+
+def next_via(op):
+    """rotate through the public variants of an abstract call"""
+    _via[0] += 1
+    return _via[0] % len(VARIANTS[op])
+
+
+def do_call(f, op, args, via=0):
+    """one call on an ArMember (variant `via`) or an io.BytesIO (via=0); any exception is an observation"""
+    if op not in VARIANTS:
+        raise core.MachineryError("unknown op %r" % (op,))
     try:
-        if op == "read":
-            v = f.read()
-        elif op == "readn":
-            v = f.read(args[0])
-        elif op == "readline":
-            v = f.readline()
-        elif op == "readlinen":
-            v = f.readline(args[0])
-        elif op == "readlines":
-            v = f.readlines()
-        elif op == "seek":
-            f.seek(args[0], args[1])
-            v = None                       # return value of seek is not specified (D4)
-        elif op == "tell":
-            v = f.tell()
-        else:
-            raise core.MachineryError("unknown op %r" % (op,))
-    except core.MachineryError:
-        raise
+        v = VARIANTS[op][via](f, args)
     except Exception as e:                 # observation, not a harness failure
         return {"ret": [], "n": 0, "exc": type(e).__name__}
-    if op in ("read", "readn", "readline", "readlinen"):
+    if op in BYTES_OPS:
         if not isinstance(v, bytes):
             return {"ret": [], "n": 0, "exc": "returned-" + type(v).__name__}
         return {"ret": [v], "n": 0, "exc": ""}
-    if op == "readlines":
+    if op in LIST_OPS:
         if not isinstance(v, list) or not all(isinstance(x, bytes) for x in v):
             return {"ret": [], "n": 0, "exc": "returned-" + type(v).__name__}
         return {"ret": list(v), "n": 0, "exc": ""}
@@ -230,7 +284,7 @@ def do_call(f, op, args):
         if not isinstance(v, int):
             return {"ret": [], "n": 0, "exc": "returned-" + type(v).__name__}
         return {"ret": [], "n": v, "exc": ""}
-    return {"ret": [], "n": 0, "exc": ""}
+    return {"ret": [], "n": 0, "exc": ""}      # seek: the return value is not specified (D4)
 
 
 def safe_tell(f):
@@ -241,10 +295,69 @@ def safe_tell(f):
         return "EXC:" + type(e).__name__
 
 
-def call_str(m, op, args):
-    py = {"read": "read()", "readn": "read(%s)", "readline": "readline()", "readlinen": "readline(%s)",
-          "readlines": "readlines()", "seek": "seek(%s, %s)", "tell": "tell()"}[op]
-    return "member[%d].%s" % (m, py % tuple(args) if args else py)
+def call_str(m, op, args, via=0):
+    py = VARIANT_TEXT[op][via]
+    return "member[%d].%s" % (m, py % tuple(args) if "%s" in py else py)
+
+
+def short(x, n=80):
+    r = repr(x)
+    return r if len(r) <= n else "%s...(%d chars)" % (r[:n], len(r))
+
+
+ITER_FINDING = "C06-iter-single-line"
+
+
+def iter_policy(ctx):
+    """'fixed': the deviation of list(member) is a violation; 'open': KNOWN-FINDING; 'reported': not in
+    known_findings.json yet -- recorded as drift and in the evidence, reported to the lead"""
+    for f in ctx.findings():
+        if f["id"] == ITER_FINDING:
+            return "fixed" if f["status"] == "fixed" else "open"
+    return "reported"
+
+
+def iter_deviation(ctx, what):
+    pol = iter_policy(ctx)
+    if pol == "fixed":
+        return False
+    if pol == "open":
+        ctx.known_hit(ITER_FINDING)
+    else:
+        n = ctx.extra.get("reported_divergence_iter_single_line", {"count": 0})
+        if n["count"] == 0:
+            n["example"] = what
+            ctx.drift("genuine divergence (reported to the lead, not in known_findings.json): list(member) / "
+                      "`for line in member` yields only the first remaining line; %s" % what)
+        n["count"] += 1
+        ctx.extra["reported_divergence_iter_single_line"] = n
+    return True
+
+
+def open_arfile(arch, mode, path, fobj, variant):
+    """every public way of building an ArFile over the same archive (positional / keyword filename,
+    mode, fileobj; encoding and errors when the archive asks for them)"""
+    from debian.arfile import ArFile
+    kw = {}
+    if arch.encoding is not None:
+        kw["encoding"] = arch.encoding
+    if arch.errors is not None:
+        kw["errors"] = arch.errors
+    if mode == "byname":
+        v = variant % 4
+        if v == 0:
+            return ArFile(path, **kw)
+        if v == 1:
+            return ArFile(path, "r", **kw)
+        if v == 2:
+            return ArFile(filename=path, **kw)
+        return ArFile(filename=path, mode="r", fileobj=None, encoding=arch.encoding, errors=arch.errors)
+    v = variant % 3
+    if v == 0:
+        return ArFile(fileobj=fobj, **kw)
+    if v == 1:
+        return ArFile(None, "r", fobj, **kw)
+    return ArFile(mode="r", fileobj=fobj, encoding=arch.encoding, errors=arch.errors)
 
 
 class Session:
@@ -252,23 +365,27 @@ class Session:
     mode: "shared" = ArFile(fileobj=io.BytesIO), "byname" = ArFile(filename=path),
           "fileobj" = ArFile(fileobj=open(path, "rb")) (a real file object on the same path)"""
     count = 0
+    per_mode = {}
 
     def __init__(self, ctx, arch, mode, path=None):
-        from debian.arfile import ArFile
         self.error = None
         self.members = []
         self.ar = None
         self.mode = mode
         self.fh = None
+        Session.count += 1
+        n = Session.per_mode[mode] = Session.per_mode.get(mode, 0) + 1     # rotates the constructor variants
+        self.serial = n
         try:
             if mode == "shared":
-                self.ar = ArFile(fileobj=io.BytesIO(arch.blob))
+                self.ar = open_arfile(arch, mode, None, io.BytesIO(arch.blob), n)
             elif mode == "fileobj":
                 self.fh = open(path or arch.file(ctx), "rb")
-                self.ar = ArFile(fileobj=self.fh)
+                self.ar = open_arfile(arch, mode, None, self.fh, n)
             else:
-                self.ar = ArFile(filename=path or arch.file(ctx))
-            self.members = list(self.ar.getmembers())
+                self.ar = open_arfile(arch, mode, path or arch.file(ctx), None, n)
+            # getmembers() / the members property / iteration are the same list (checked in check_index)
+            self.members = list((self.ar.getmembers(), self.ar.members, self.ar)[(n // 4) % 3])
         except Exception as e:
             self.error = "opening the archive raised %s: %s" % (type(e).__name__, e)
         self.datas = [m["data"] for m in arch.members]
@@ -289,8 +406,7 @@ class Session:
         """end of a replay: every third by-name session closes its members; the others stay alive
         with UNCLOSED members (the last three are kept referenced) while later archives are written
         over the same path and opened by name again"""
-        Session.count += 1
-        if self.mode != "byname" or Session.count % 3 == 0:
+        if self.mode != "byname" or self.serial % 3 == 0 or len(self.members) > 50:
             self.close()
             return
         if not hasattr(ctx, "_c06_alive"):
@@ -298,34 +414,66 @@ class Session:
             ctx._c06_alive = collections.deque(maxlen=3)
         ctx._c06_alive.append(self)
 
-    def step(self, m, op, args, exp=None):
-        """call on member m (0-based); exp = TLC's expectation {"ret", "n", "tell"} or None.
-        returns (message or None, observation, tell of m)"""
-        obs = do_call(self.members[m], op, args)
+    def step(self, m, op, args, exp=None, via=None, ctx=None):
+        """call on member m (0-based) through API variant `via`; exp = TLC's expectation {"ret", "n",
+        "tell"[, "dev"]} or None. Returns (message or None, observation, tell of m).
+        readlines(h >= 1) and list(member) have several admissible outcomes: they are judged by TLC
+        (expectation `exp` of an LTS edge, or trace validation), not against io.BytesIO; the reference
+        is moved to where the observed result ends so that later calls stay comparable."""
+        if via is None:
+            via = next_via(op)
+        obs = do_call(self.members[m], op, args, via)
+        cs = call_str(m, op, args, via)
+        if op in ("readlinesh", "iter"):
+            o = self.oracles[m]
+            start = o.tell()
+            full = o.readlines()
+            tells = [safe_tell(x) for x in self.members]
+            msg = None
+            if exp is not None:
+                if exp["ret"] != full or exp["tell"] != o.tell():
+                    raise core.MachineryError("specification and io.BytesIO disagree on %s over %s" % (cs, short(self.datas[m])))
+                if obs["exc"] or obs["ret"] != exp["ret"] or tells[m] != exp["tell"]:
+                    dev = exp.get("dev")
+                    if dev is not None and not obs["exc"] and obs["ret"] == dev["ret"] and tells[m] == dev["tell"] \
+                            and ctx is not None and iter_deviation(ctx, "%s over %s returned %s" % (cs, short(self.datas[m]), short(obs["ret"]))):
+                        pass
+                    else:
+                        msg = "%s returned %s%s and tell() = %r; the specification (TLC) says %s and %r" % (
+                            cs, short(obs["ret"]), (" / " + obs["exc"]) if obs["exc"] else "", tells[m], short(exp["ret"]), exp["tell"])
+            if not obs["exc"] and isinstance(tells[m], int):
+                o.seek(tells[m])               # keep the reference where the member says it is
+            else:
+                o.seek(start + sum(len(x) for x in obs["ret"]))
+            rtells = [x.tell() for x in self.oracles]
+            if msg is None and [t for i, t in enumerate(tells) if i != m] != [t for i, t in enumerate(rtells) if i != m]:
+                msg = "after %s: tell() of the members is %r; io.BytesIO says %r" % (cs, tells, rtells)
+            self.last_full = full
+            return msg, obs, tells[m]
         ref = do_call(self.oracles[m], op, args)
         if ref["exc"]:
-            raise core.MachineryError("io.BytesIO raised %s for %s: generator left the domain" % (ref["exc"], call_str(m, op, args)))
+            raise core.MachineryError("io.BytesIO raised %s for %s: generator left the domain" % (ref["exc"], cs))
         tells = [safe_tell(x) for x in self.members]
         rtells = [x.tell() for x in self.oracles]
         if exp is not None and (exp["ret"] != ref["ret"] or exp["n"] != ref["n"] or exp["tell"] != rtells[m]):
-            raise core.MachineryError("specification and io.BytesIO disagree on %s over %r: TLC %r, BytesIO %r tell %r"
-                                      % (call_str(m, op, args), self.datas[m], exp, ref, rtells[m]))
+            raise core.MachineryError("specification and io.BytesIO disagree on %s over %s: TLC %s, BytesIO %s tell %r"
+                                      % (cs, short(self.datas[m]), short(exp), short(ref), rtells[m]))
         who = "the specification (TLC) and io.BytesIO say" if exp is not None else "io.BytesIO says"
         msg = None
         if obs["exc"]:
-            msg = "%s raised/returned %s; %s %r" % (call_str(m, op, args), obs["exc"], who, ref["ret"] if op != "tell" else ref["n"])
+            msg = "%s raised/returned %s; %s %s" % (cs, obs["exc"], who, short(ref["ret"] if op != "tell" else ref["n"]))
         elif obs["ret"] != ref["ret"]:
-            msg = "%s returned %r; %s %r" % (call_str(m, op, args), obs["ret"] if op == "readlines" else obs["ret"][0],
-                                             who, ref["ret"] if op == "readlines" else ref["ret"][0])
+            msg = "%s returned %s; %s %s" % (cs, short(obs["ret"] if op == "readlines" else obs["ret"][0]),
+                                             who, short(ref["ret"] if op == "readlines" else ref["ret"][0]))
         elif obs["n"] != ref["n"]:
-            msg = "%s returned %r; %s %r" % (call_str(m, op, args), obs["n"], who, ref["n"])
+            msg = "%s returned %r; %s %r" % (cs, obs["n"], who, ref["n"])
         elif tells != rtells:
-            msg = "after %s: tell() of the members is %r; %s %r" % (call_str(m, op, args), tells, who, rtells)
+            msg = "after %s: tell() of the members is %r; %s %r" % (cs, tells, who, rtells)
         return msg, obs, tells[m]
 
 
 def run_ops(ctx, arch, mode, ops, unspecified=()):
-    """replay a sequence of calls [{m, op, args, exp?}] on a fresh ArFile; None or a message.
+    """replay a sequence of calls [{m, op, args, exp?, via?}] on a fresh ArFile; None or a message.
     `unspecified`: calls outside the domain (D4) executed at the very end; any outcome is accepted,
     an exception other than IOError/ValueError is recorded as drift (never a verdict)"""
     s = Session(ctx, arch, mode)
@@ -333,9 +481,11 @@ def run_ops(ctx, arch, mode, ops, unspecified=()):
         if s.error:
             return s.error
         for i, o in enumerate(ops):
-            msg, _, _ = s.step(o["m"], o["op"], o["args"], o.get("exp"))
+            if o.get("via") is None:
+                o["via"] = next_via(o["op"])          # recorded: a replayed case uses the same variant
+            msg, _, _ = s.step(o["m"], o["op"], o["args"], o.get("exp"), o["via"], ctx)
             if msg:
-                return "call %d of %d (%s mode, member data %r): %s" % (i + 1, len(ops), mode, s.datas[o["m"]], msg)
+                return "call %d of %d (%s mode, member data %s): %s" % (i + 1, len(ops), mode, short(s.datas[o["m"]]), msg)
         for (m, what) in unspecified:
             f = s.members[m]
             try:
@@ -343,8 +493,8 @@ def run_ops(ctx, arch, mode, ops, unspecified=()):
                     f.read(0)
                 elif what == "seekneg":
                     f.seek(-1 - len(s.datas[m]), 2)
-                elif what == "readlines-hint":
-                    f.readlines(1)
+                elif what == "seekwhence3":
+                    f.seek(0, 3)
             except (IOError, ValueError):
                 pass
             except Exception as e:
@@ -356,28 +506,36 @@ def run_ops(ctx, arch, mode, ops, unspecified=()):
 
 # ------------------------------------------------------------------ concretization of model archives
 
+BIG_K = [8191, 8192, 8193, 65535, 65536, 65537, 524288, 1048576, 127, 128, 129, 4095, 4096, 4097]
+
+
 class Conc:
     """model archive (list of cell lists over {10, 120}) -> real archive. Every cell becomes K bytes:
-    an NL cell = K-1 non-newline bytes + b'\\n', an x cell = K non-newline bytes; positions and sizes
-    scale by K, so TLC's expected cells map to byte slices."""
+    an NL cell = K-1 non-newline bytes + b'\\n', an x cell = K non-newline bytes; positions, sizes and
+    call arguments scale by K, so TLC's expected cells map to byte slices for ANY K (1..5 ordinarily;
+    8191..65537, 512 KiB, 1 MiB on the size-stress rotation: buffer boundaries of the underlying
+    read/readline, lines longer than 64 KiB, members of 1 MiB).  With repeat = R every model member
+    becomes R consecutive real members of the same name (index cases with 100 / 1000 members)."""
 
-    def __init__(self, rng, cells, canonical=False, names=None):
-        self.K = 1 if canonical else rng.choice([1, 1, 2, 3, 5])
+    def __init__(self, rng, cells, canonical=False, names=None, K=None, repeat=1, encoding=None, errors=None):
+        self.K = K if K is not None else (1 if canonical else rng.choice([1, 1, 2, 3, 5]))
+        self.R = repeat
         K = self.K
-        datas = []
-        for d in cells:
-            datas.append(b"".join((non_nl(rng, K - 1, canonical) + b"\n") if c == 10 else non_nl(rng, K, canonical)
-                                  for c in d))
         style = "gnu" if canonical else rng.choice(["gnu", "bsd"])
         if names is None:
             pool = NAME_POOL + ([NAME16] if style == "bsd" else [])
             names = [pool[i] for i in range(len(cells))] if canonical else [rng.choice(pool) for _ in cells]
+        names = [n if isinstance(n, dict) else {"name": n, "raw": None} for n in names]
+        if any(len(n["raw"] or n["name"].encode("ascii")) >= 16 for n in names):
+            style = "bsd"
         members = []
-        for i, d in enumerate(datas):
-            m = rand_meta(rng, wide=(canonical and i == 0))
-            m.update(name=names[i], data=d)
-            members.append(m)
-        self.arch = Arch(members, style)
+        for i, d in enumerate(cells):
+            for r in range(repeat):
+                data = b"".join((non_nl(rng, K - 1, canonical) + b"\n") if c == 10 else non_nl(rng, K, canonical) for c in d)
+                m = rand_meta(rng, wide=(canonical and i == 0))
+                m.update(name=names[i]["name"], raw=names[i]["raw"], data=data)
+                members.append(m)
+        self.arch = Arch(members, style, encoding=encoding, errors=errors)
 
     def args(self, op, args):
         K = self.K
@@ -385,23 +543,45 @@ class Conc:
             return [args[0] * K if args[0] > 0 else args[0]]
         if op == "seek":
             return [args[0] * K, args[1]]
+        if op == "iter":
+            return []
         return list(args)
 
-    def op(self, e):
-        """model edge -> concrete call with TLC's expectation"""
-        m = e["args"][0] - 1
+    def result(self, m, res, to):
         d = self.arch.members[m]["data"]
         K = self.K
-        ret = [b"".join(d[(i - 1) * K:i * K] for i in chunk) for chunk in e["res"]["v"]]
-        return {"m": m, "op": e["op"], "args": self.args(e["op"], e["args"][1:]),
-                "exp": {"ret": ret, "n": e["res"]["n"] * K, "tell": e["to"][m] * K}}
+        return {"ret": [b"".join(d[(i - 1) * K:i * K] for i in chunk) for chunk in res["v"]],
+                "n": res["n"] * K, "tell": to[m] * K}
+
+    def op(self, e):
+        """model edge -> concrete call with TLC's expectation (for list(member) also the outcome of
+        the named deviation IterSingleLine, emitted by TLC as a sibling edge)"""
+        m = e["args"][0] - 1
+        o = {"m": m, "op": e["op"], "args": self.args(e["op"], e["args"][1:]), "exp": self.result(m, e["res"], e["to"])}
+        if e.get("_dev") is not None:
+            o["exp"]["dev"] = self.result(m, e["_dev"]["res"], e["_dev"]["to"])
+        return o
+
+    def index_exp(self, idx):
+        """TLC's index of the model archive -> expectation for the real one (R copies per member: the
+        last member of a name is the last copy of the model's last member of that name)"""
+        R = self.R
+        members, last = [], []
+        for k, x in enumerate(idx["members"]):
+            for r in range(R):
+                members.append({"id": (x["id"] - 1) * R + r + 1, "sizeclass": x["size"]})
+                last.append((idx["last"][k] - 1) * R + R)
+        return {"members": members, "last": last}
 
 
 # ------------------------------------------------------------------ index
 
-def check_index(ctx, arch, mode, exp, names_of):
-    """exp = TLC's index {"members": [{name, size, id}], "last": [...]} of the model archive;
-    names_of: model name -> real name. Returns None or a message (verdict observables only)."""
+def check_index(ctx, arch, mode, exp):
+    """exp = TLC's index mapped to the real archive: {"members": [{id}], "last": [...]} (1-based
+    positions in arch.members). Returns None or a message (verdict observables only).
+    Entry points: getnames(), getmembers(), the members property, iteration, getmember(), ar[name],
+    extractfile(name / member) (documented to return the FIRST member of the name: judged only as "a
+    member of that name"), member attributes name/size/owner/group/mtime (fmode, fname: diagnostic)."""
     s = Session(ctx, arch, mode)
     try:
         if s.error and s.ar is None:
@@ -410,38 +590,52 @@ def check_index(ctx, arch, mode, exp, names_of):
         try:
             names = ar.getnames()
             members = list(ar.getmembers())
-            exp_names = [names_of[x["name"]] for x in exp["members"]]
+            exp_names = [arch.members[x["id"] - 1]["name"] for x in exp["members"]]
             if names != exp_names:
-                return "getnames() = %r, the specification lists %r" % (names, exp_names)
+                return "getnames() = %s, the specification lists %s" % (short(names, 200), short(exp_names, 200))
             if len(members) != len(exp_names) or [m.name for m in members] != exp_names:
-                return "getmembers() names %r, the specification lists %r" % ([m.name for m in members], exp_names)
-            if [m.name for m in ar] != exp_names:
-                return "iteration order %r differs from %r" % ([m.name for m in ar], exp_names)
+                return "getmembers() names %s, the specification lists %s" % (short([m.name for m in members], 200), short(exp_names, 200))
+            if [m.name for m in ar] != exp_names or [id(m) for m in ar] != [id(m) for m in members]:
+                return "iteration order %s differs from %s" % (short([m.name for m in ar], 200), short(exp_names, 200))
+            if [id(m) for m in ar.members] != [id(m) for m in members]:
+                return "the members property differs from getmembers()"
             for k, x in enumerate(exp["members"]):
                 w = arch.members[x["id"] - 1]
                 got = {"size": members[k].size, "owner": members[k].owner, "group": members[k].group, "mtime": members[k].mtime}
                 want = {"size": len(w["data"]), "owner": w["owner"], "group": w["group"], "mtime": w["mtime"]}
-                if len(w["data"]) % max(1, x["size"]) != 0 or (x["size"] == 0) != (len(w["data"]) == 0):
+                if "sizeclass" in x and (x["sizeclass"] == 0) != (len(w["data"]) == 0):
                     raise core.MachineryError("concretization changed a size class")
                 if got != want:
                     return "member %d (%r): %r, recorded header fields %r" % (k, exp_names[k], got, want)
-                try:
-                    fm = members[k].fmode
-                    if int(fm.strip() or b"0", 8) != w["mode"]:
-                        ctx.drift("fmode of member %d is %r, written %o" % (k, fm, w["mode"]))
-                except Exception as e:
-                    ctx.drift("fmode not readable: %r" % (e,))
-            for k, x in enumerate(exp["members"]):
+                if k < 20:
+                    try:
+                        fm = members[k].fmode
+                        if int(fm.strip() or b"0", 8) != w["mode"]:
+                            ctx.drift("fmode of member %d is %r, written %o" % (k, fm, w["mode"]))
+                        if members[k].fname != (None if mode != "byname" else arch.file(ctx)):
+                            ctx.drift("fname of member %d is %r in %s mode" % (k, members[k].fname, mode))
+                    except Exception as e:
+                        ctx.drift("fmode/fname not readable: %r" % (e,))
+            step = 1 if len(members) <= 60 else 7
+            for k in list(range(0, len(members), step)) + [len(members) - 1] if members else []:
                 nm = exp_names[k]
                 last = members[exp["last"][k] - 1]
                 if ar.getmember(nm) is not last or ar[nm] is not last:
                     which = [i for i, m in enumerate(members) if m is ar.getmember(nm)]
                     return "getmember(%r) is member %r, the specification says the last of that name: %d" % (nm, which, exp["last"][k] - 1)
+                for arg in (nm, members[k]):
+                    x = ar.extractfile(arg)
+                    if not any(x is m for m in members) or x.name != nm:
+                        return "extractfile(%r) returned %r, not a member named %r" % (arg, getattr(x, "name", x), nm)
+            if ar.extractfile("no/such member") is not None:
+                return "extractfile() of an absent name returned a member"
             # exactness of the offsets found by the index walk: whole content of every member
             for k in range(len(members)):
                 got = members[k].read()
                 if got != s.datas[k]:
-                    return "member %d: read() returned %r, its data is %r" % (k, got, s.datas[k])
+                    return "member %d: read() returned %s, its data is %s" % (k, short(got), short(s.datas[k]))
+                if len(members) > 50:
+                    members[k].close()
         except core.MachineryError:
             raise
         except Exception as e:
@@ -453,72 +647,85 @@ def check_index(ctx, arch, mode, exp, names_of):
 
 # ------------------------------------------------------------------ trace recording (code -> spec)
 
+SIZE_EDGES = [7, 8, 9, 15, 16, 17, 31, 32, 33, 63, 64, 65, 71, 72, 73, 127, 128, 129, 255, 256, 257]
+NUMS6 = [0, 9, 10, 99, 100, 2 ** 15, 2 ** 16, 99999, 100000, 999999]
+NUMS12 = [0, 9, 10, 2 ** 31 - 1, 2 ** 31, 2 ** 32 - 1, 2 ** 32, 10 ** 11 - 1, 10 ** 11, 999999999999]
+
+
 def random_data(rng, maxlen):
-    n = rng.choice([0, 0, 1, 2, 3, rng.randrange(maxlen + 1), rng.randrange(maxlen + 1), maxlen])
+    n = rng.choice([0, 0, 1, 2, 3, rng.randrange(maxlen + 1), rng.randrange(maxlen + 1), maxlen,
+                    rng.choice([x for x in SIZE_EDGES if x <= max(maxlen, 9)])])
     kind = rng.randrange(6)
     if kind == 0 and n >= 8:         # looks like an archive itself
         d = (b"!<arch>\n" + b"%-16s%-12d%-6d%-6d%-8o%-10d`\n" % (b"x/", 0, 0, 0, 0o644, 4) + b"abc\n")[:n]
         return d.ljust(n, b"`")
     dens = [0.0, 0.05, 0.3, 0.6, 1.0][rng.randrange(5)]
+    if kind == 1 and n >= 4:         # identical lines, CR / CRLF line ends, a last line without newline
+        line = non_nl(rng, rng.randrange(3)) + rng.choice([b"\n", b"\r\n", b"\r", b"\n\n"])
+        return (line * n)[:n]
     return b"".join(b"\n" if rng.random() < dens else non_nl(rng, 1) for _ in range(n))
 
 
-def random_arch(rng, maxmem=5, maxlen=64):
-    n = rng.choice([0, 1, 1, 2, 2, 3, 4, maxmem])
+def random_arch(rng, maxmem=5, maxlen=64, nmembers=None):
+    n = nmembers if nmembers is not None else rng.choice([0, 1, 1, 2, 2, 3, 4, maxmem, rng.choice([9, 10, 11, 16, 17])])
     style = rng.choice(["gnu", "bsd"])
-    pool = NAME_POOL + ([NAME16] if style == "bsd" else [])
+    pool = [{"name": x, "raw": None} for x in NAME_POOL + ([NAME16] if style == "bsd" else [])]
+    encoding = errors = None
+    if rng.random() < 0.35:          # text names beyond ASCII, with the encoding / errors parameters
+        ex = exotic_names(rng)
+        _, encoding, errors = rng.choice(ex)
+        pool = [{"name": decode_name(r, encoding, errors), "raw": r} for (r, e, x) in ex if (e, x) == (encoding, errors)] + pool[:3]
     members = []
     for _ in range(n):
         m = rand_meta(rng)
-        m.update(name=rng.choice(pool[:4] if rng.random() < 0.3 else pool), data=random_data(rng, maxlen))
+        if rng.random() < 0.3:       # numbers filling their fields / powers of two, zero-padded or not
+            m.update(owner=rng.choice(NUMS6), group=rng.choice(NUMS6), mtime=rng.choice(NUMS12), zeros=rng.random() < 0.5)
+        nm = rng.choice(pool[:4] if rng.random() < 0.3 else pool)
+        m.update(name=nm["name"], raw=nm["raw"], data=random_data(rng, maxlen if n < 20 else 6))
         members.append(m)
-    return Arch(members, style)
+    return Arch(members, style, encoding=encoding, errors=errors)
 
 
-def random_call(rng, datas, tells):
+def random_call(rng, datas, tells, big=False):
     """one in-domain call (D4) given the current positions of the members"""
     m = rng.randrange(len(datas))
     L = len(datas[m])
     p = tells[m]
+    near = [1, 2, 3, max(1, L), L + 1, max(1, L - 1), rng.randrange(1, L + 3)]     # all >= 1 (D4: no read(0))
+    if big:                          # arguments around the buffer sizes of the underlying file objects
+        near += [4095, 4096, 4097, 8191, 8192, 8193, 65535, 65536, 65537, 131072, 2 * L + 7]
     op = rng.choice(["read", "readn", "readn", "readline", "readline", "readlinen", "readlinen", "readlines",
-                     "seek", "seek", "seek", "tell"])
+                     "seek", "seek", "seek", "tell", "readlinesh", "iter"] + (["seek", "seek", "readn", "readlinen"] if big else []))
     if op == "readn":
-        args = [rng.choice([-1, 1, 1, 2, 3, rng.randrange(1, L + 3), L, L + 1, -7] if L else [-1, 1, 2])]
-        if args[0] == 0:
-            args = [1]
+        args = [rng.choice([-1, -7] + near)]
     elif op == "readlinen":
-        args = [rng.choice([-1, 0, 1, 2, 3, rng.randrange(0, L + 3), L, L + 1, -3])]
+        args = [rng.choice([-1, 0, -3] + near)]
+    elif op == "readlinesh":
+        args = [rng.choice(near)]
     elif op == "seek":
         wh = rng.randrange(3)
-        t = rng.choice([0, rng.randrange(L + 1), rng.randrange(L + 1), L, L + 1, L + 5])
+        t = rng.choice([0, rng.randrange(L + 1), rng.randrange(L + 1), L, L + 1, L + 5, max(0, L - 1)]
+                       + ([x for x in (8191, 8192, 8193, 65536) if x <= L + 5] if big else []))
         args = [t - (0 if wh == 0 else p if wh == 1 else L), wh]
     else:
         args = []
     return (m, op, args)
 
 
-def random_calls(rng, datas, n):
-    """in-domain calls (D4); relative seeks need the current position: tracked with io.BytesIO"""
-    ref = [io.BytesIO(d) for d in datas]
-    calls = []
-    if not datas:
-        return calls
-    for _ in range(n):
-        m, op, args = random_call(rng, datas, [r.tell() for r in ref])
-        do_call(ref[m], op, args)
-        calls.append((m, op, args))
-    return calls
-
-
 def meta_strs(m):
     return [str(m["owner"]), str(m["group"]), str(m["mtime"])]
 
 
-def record(ctx, arch, mode, calls):
-    """execute the calls on the real classes and log one event per call"""
-    spec_mem = [{"name": m["name"], "data": list(m["data"]), "meta": meta_strs(m)} for m in arch.members]
+def record(ctx, arch, mode, calls=None, rng=None, n=0, big=False, log=True):
+    """execute calls on the real classes and log one event per call. calls = None: n random in-domain
+    calls are generated on the fly from the positions of the io.BytesIO references (which follow the
+    real member after the calls with several admissible outcomes). Returns (trace, message of the
+    io.BytesIO cross-check or None, the calls made)."""
+    spec_mem = [{"name": name_hex(m["name"]), "data": list(m["data"]) if log else [], "meta": meta_strs(m)} for m in arch.members]
     s = Session(ctx, arch, mode)
     events = []
+    made = []
+    oracle_msg = None
     try:
         ev = {"op": "open", "members": [], "last": [], "exc": ""}
         if s.ar is None:
@@ -527,26 +734,40 @@ def record(ctx, arch, mode, calls):
             try:
                 members = list(s.ar.getmembers())
                 names = s.ar.getnames()
+                first = {}
                 for k, m in enumerate(members):
-                    ev["members"].append({"name": names[k] if m.name == names[k] else "%r/%r" % (m.name, names[k]),
+                    first.setdefault(id(m), k + 1)
+                for k, m in enumerate(members):
+                    ev["members"].append({"name": name_hex(names[k]) if m.name == names[k] else "%r/%r" % (m.name, names[k]),
                                           "size": m.size, "meta": [str(m.owner), str(m.group), str(m.mtime)]})
-                    got = s.ar.getmember(m.name)
-                    ev["last"].append(([i + 1 for i, x in enumerate(members) if x is got] or [0])[0])
+                    ev["last"].append(first.get(id(s.ar.getmember(m.name)), 0))
             except Exception as e:
                 ev["exc"] = type(e).__name__
         events.append(ev)
-        oracle_msg = None
-        if not s.error:
-            for (m, op, args) in calls:
-                msg, obs, t = s.step(m, op, args)
+        if not s.error and s.datas:
+            k = 0
+            while (k < n) if calls is None else (k < len(calls)):
+                if calls is None:
+                    m, op, args = random_call(rng, s.datas, [o.tell() for o in s.oracles], big)
+                else:
+                    m, op, args = calls[k]
+                k += 1
+                if op == "seek" and args[1] == 1 and s.oracles[m].tell() + args[0] < 0:
+                    continue            # a recorded relative seek that would leave the domain on this tree
+                made.append([m, op, list(args)])
+                msg, obs, t = s.step(m, op, args, ctx=ctx)
+                if op == "iter" and not obs["exc"] and len(obs["ret"]) < len(s.last_full):
+                    if iter_policy(ctx) != "fixed":
+                        iter_deviation(ctx, "%s over %s returned %s" % (call_str(m, op, args), short(s.datas[m]), short(obs["ret"])))
                 if msg and oracle_msg is None:
                     oracle_msg = "call %d: %s" % (len(events), msg)
-                events.append({"op": op, "m": m + 1, "args": list(args), "ret": [list(c) for c in obs["ret"]],
-                               "n": obs["n"], "tell": t if isinstance(t, int) else -1,
-                               "exc": obs["exc"] or ("" if isinstance(t, int) else str(t))})
+                if log:
+                    events.append({"op": op, "m": m + 1, "args": list(args), "ret": [list(c) for c in obs["ret"]],
+                                   "n": obs["n"], "tell": t if isinstance(t, int) else -1,
+                                   "exc": obs["exc"] or ("" if isinstance(t, int) else str(t))})
     finally:
         s.finish(ctx)
-    return {"mem": spec_mem, "events": events}, oracle_msg
+    return {"mem": spec_mem, "events": events}, oracle_msg, made
 
 
 def corrupt(t, how):
@@ -590,6 +811,18 @@ def corrupt(t, how):
 CONTROL_KINDS = ("last", "size", "byte", "tell", "dropread")
 
 
+def trace_cfg(ctx):
+    """TraceArMember.cfg; the named deviation IterSingleLine is enabled unless known_findings.json lists
+    it as fixed (DESIGN 2.3: deviations are named actions switched on by a constant, never a loosened
+    property)"""
+    cfg = open(os.path.join(core.SPEC, "TraceArMember.cfg")).read()
+    if "IterSingleLine = FALSE" not in cfg:
+        raise core.MachineryError("constant IterSingleLine not found in TraceArMember.cfg")
+    if iter_policy(ctx) != "fixed":
+        cfg = cfg.replace("IterSingleLine = FALSE", "IterSingleLine = TRUE")
+    return cfg
+
+
 def validate(ctx, traces, with_controls=True):
     controls = []
     if with_controls:
@@ -601,27 +834,31 @@ def validate(ctx, traces, with_controls=True):
                     break
         if len(controls) < 3:
             raise core.MachineryError("could not derive corrupted control traces")
-    acc, _, _ = core.validate_traces(ctx, "TraceArMember", "TraceArMember.cfg", traces,
-                                     extra_env={"TRACE_DIAG": "0"}, controls=controls)
+    cfg = trace_cfg(ctx)
+    # the recursive BytesIO operators go ~260 deep on 257-byte members: give the TLC threads room
+    jopts = ["-XX:TieredStopAtLevel=1", "-Xss64m"]
+    acc, _, _ = core.validate_traces(ctx, "TraceArMember", cfg, traces,
+                                     extra_env={"TRACE_DIAG": "0"}, controls=controls, java_opts=jopts)
     rejected = [i for i in range(1, len(traces) + 1) if i not in acc]
     info = {}
     if rejected:
         sub = [traces[i - 1] for i in rejected[:20]]
-        _, prog, _ = core.validate_traces(ctx, "TraceArMember", "TraceArMember.cfg", sub,
-                                          extra_env={"TRACE_DIAG": "1"})
+        _, prog, _ = core.validate_traces(ctx, "TraceArMember", cfg, sub,
+                                          extra_env={"TRACE_DIAG": "1"}, java_opts=jopts)
         for j, i in enumerate(rejected[:20]):
             info[i] = prog.get(j + 1, 0)
     return rejected, info
 
 
-def trace_leg(ctx, jobs, label):
-    """jobs: [(arch, mode, calls)]; record, cross-check with io.BytesIO, let TLC validate"""
-    traces = []
-    for arch, mode, calls in jobs:
-        t, omsg = record(ctx, arch, mode, calls)
+def trace_leg(ctx, jobs, label, rng):
+    """jobs: [(arch, mode, number of calls)]; record, cross-check with io.BytesIO, let TLC validate"""
+    traces, made = [], []
+    for arch, mode, n in jobs:
+        t, omsg, calls = record(ctx, arch, mode, rng=rng, n=n)
         traces.append(t)
+        made.append(calls)
         if omsg and len(ctx.violations) < 5:
-            ctx.violation({"kind": "calls", "arch": arch.to_json(), "mode": mode, "calls": [list(c) for c in calls]},
+            ctx.violation({"kind": "calls", "arch": arch.to_json(), "mode": mode, "calls": calls},
                           "%s archive, %s mode: %s" % (label, mode, omsg))
     if not traces:
         return
@@ -631,18 +868,75 @@ def trace_leg(ctx, jobs, label):
     for i in range(len(traces)):
         ctx.distinct.add((label, i))
     for i in rejected[:5]:
-        arch, mode, calls = jobs[i - 1]
+        arch, mode, _ = jobs[i - 1]
         t = traces[i - 1]
         at = info.get(i, 0)
         ev = t["events"][at] if at < len(t["events"]) else None
-        what = ("ArFile listing %r" % (ev,)) if at == 0 else "%s -> %r" % (call_str(ev["m"] - 1, ev["op"], ev["args"]), ev)
-        ctx.violation({"kind": "calls", "arch": arch.to_json(), "mode": mode, "calls": [list(c) for c in calls],
+        what = ("ArFile listing %s" % short(ev, 600)) if at == 0 else "%s -> %s" % (call_str(ev["m"] - 1, ev["op"], ev["args"]), short(ev, 400))
+        ctx.violation({"kind": "calls", "arch": arch.to_json(), "mode": mode, "calls": made[i - 1],
                        "first_unexplained_event": at + 1},
-                      "%s archive, %s mode: recorded history not explained by ArMemberRef at event %d (%s); member data %r"
-                      % (label, mode, at + 1, what, [m["data"] for m in arch.members]))
+                      "%s archive, %s mode: recorded history not explained by ArMemberRef at event %d (%s); member data %s"
+                      % (label, mode, at + 1, what, short([m["data"] for m in arch.members], 400)))
     ctx.extra["traces_recorded_" + label] = len(traces)
     ctx.extra["traces_rejected_" + label] = len(rejected)
     return traces
+
+
+# ------------------------------------------------------------------ size stress beyond what TLC can scan
+
+BIG_SIZES = [0, 1, 2, 8191, 8192, 8193, 65535, 65536, 65537, 1048576, 131071, 131072, 4095, 4096, 4097]
+
+
+def big_data(rng, n):
+    """n bytes: long lines (also > 64 KiB), many short lines, or no newline at all; last line with or
+    without newline"""
+    kind = rng.randrange(4)
+    if kind == 0 or n < 4:
+        d = non_nl(rng, n)
+    elif kind == 1:
+        line = non_nl(rng, rng.choice([1, 2, 61, 79, 127, 4095, 8191, 8192])) + b"\n"
+        d = (line * (n // len(line) + 1))[:n]
+    elif kind == 2:                  # one line longer than 64 KiB (if the member is), then short ones
+        first = min(n, rng.choice([65535, 65536, 65537, 70000]))
+        d = non_nl(rng, first - 1) + b"\n" + (b"ab\n" * n)[:n - first]
+    else:
+        d = bytearray(non_nl(rng, n))
+        for x in (8191, 8192, 65535, 65536, n - 1):
+            if 0 <= x < n and rng.random() < 0.7:
+                d[x] = 10
+        d = bytes(d)
+    if len(d) != n:
+        raise core.MachineryError("big_data: %d != %d" % (len(d), n))
+    return d
+
+
+def big_leg(ctx, rng, narch, ncalls):
+    """archives whose members have the boundary sizes (8 KiB / 64 KiB / 1 MiB +-1, lines longer than
+    64 KiB), calls with arguments around those boundaries and larger than the member, many interleaved
+    seeks. Too big for TLC to scan: judged against io.BytesIO over the member data (reference library
+    named in DESIGN.md); the TLC-derived counterpart is the K-scaled replay of the reference LTS."""
+    nbig = 0
+    for i in range(narch):
+        if len(ctx.violations) >= 5:
+            break
+        sizes = [BIG_SIZES[(i * 3 + j) % len(BIG_SIZES)] for j in range(rng.choice([1, 2, 3]))]
+        if i % 4 == 3:
+            sizes.append(rng.choice(BIG_SIZES))
+        members = []
+        for n in sizes:
+            m = rand_meta(rng)
+            m.update(name=rng.choice(NAME_POOL), raw=None, data=big_data(rng, n))
+            members.append(m)
+        arch = Arch(members, rng.choice(["gnu", "bsd"]))
+        mode = ["shared", "byname"][i % 2]
+        _, omsg, calls = record(ctx, arch, mode, rng=rng, n=ncalls, big=True, log=False)
+        nbig += 1
+        ctx.case_seen(("big", i), True)
+        if omsg:
+            ctx.violation({"kind": "calls", "arch": arch.to_json(), "mode": mode, "calls": calls, "big": True},
+                          "size-stress archive (member sizes %r), %s mode: %s" % (sizes, mode, omsg))
+    ctx.extra["size_stress_archives"] = nbig
+    return nbig
 
 
 # ------------------------------------------------------------------ archives written by ar(1)
@@ -833,7 +1127,9 @@ def proc_leg(ctx, quick, rng):
 # ------------------------------------------------------------------ the check
 
 def lts_per_archive(edges):
-    """EDGE lines -> {archive key: (cells, LTS)}; the member index goes into args"""
+    """EDGE lines -> {archive key: (cells, LTS)}; the member index goes into args. list(member) has
+    two outcomes in the emitted LTS (IterSingleLine = TRUE): the property's (every line) is the edge,
+    the named deviation (one line) is attached to it as e["_dev"] and is not part of the graph."""
     groups = {}
     for e in edges:
         k = skey(e["a"])
@@ -843,7 +1139,28 @@ def lts_per_archive(edges):
     for k in sorted(groups):
         cells, es = groups[k]
         es.sort(key=lambda x: (skey(x["from"]), x["op"], skey(x["args"])))
-        out[k] = (cells, LTS(es, [0] * len(cells)))
+        iters = {}
+        for e in es:
+            if e["op"] == "iter":
+                iters.setdefault((skey(e["from"]), e["args"][0]), []).append(e)
+        keep = []
+        for e in es:
+            if e["op"] != "iter":
+                keep.append(e)
+                continue
+            sib = iters[(skey(e["from"]), e["args"][0])]
+            top = max(x["args"][1] for x in sib)
+            if e["args"][1] != top:
+                continue                       # the deviation outcome
+            e = dict(e)
+            dev = [x for x in sib if x["args"][1] != top]
+            e["dev"] = {"res": dev[0]["res"], "to": dev[0]["to"]} if dev else None
+            keep.append(e)
+        g = LTS(keep, [0] * len(cells))
+        for e in g.edges:
+            if e["op"] == "iter":
+                e["_dev"] = e.pop("dev")
+        out[k] = (cells, g)
     return out
 
 
@@ -907,11 +1224,35 @@ def run(ctx):
 
 
 def run_binding(ctx, quick, rng):
-    # 2. index cases (and IndexExact for <= 3 members with duplicate names)
-    r_idx = ctx.tlc_must_hold("ArMember", "MC_ArMember_index.cfg", workers=1, want_tags={"INDEX"})
-    # 3. reference LTS, complete
-    r_lts = ctx.tlc_must_hold("ArMemberRef", "MC_ArMemberRef_lts_quick.cfg" if quick else "MC_ArMemberRef_lts.cfg",
-                              workers=1 if quick else 4, want_tags={"EDGE"})
+    import time
+    t_phase = [time.time()]
+    phases = ctx.extra.setdefault("phase_s", {})
+
+    def phase(name):
+        phases[name] = round(time.time() - t_phase[0], 1)
+        t_phase[0] = time.time()
+
+    # 2. index cases (and IndexExact for <= 3 members with duplicate names) -- in a thread, while
+    # 3. the complete reference LTS is emitted
+    import threading
+    box = {}
+
+    def idx_run():
+        try:
+            box["r"] = ctx.tlc_must_hold("ArMember", "MC_ArMember_index.cfg", workers=1, want_tags={"INDEX"})
+        except BaseException as e:
+            box["error"] = e
+
+    th = threading.Thread(target=idx_run)
+    th.start()
+    try:
+        r_lts = ctx.tlc_must_hold("ArMemberRef", "MC_ArMemberRef_lts_quick.cfg" if quick else "MC_ArMemberRef_lts.cfg",
+                                  workers=1 if quick else 4, want_tags={"EDGE"})
+    finally:
+        th.join()
+    if "error" in box:
+        raise box["error"]
+    r_idx = box["r"]
     archives = lts_per_archive(r_lts.printed.get("EDGE", []))
     nedges = sum(len(g.edges) for _, g in archives.values())
     ops_count = {}
@@ -927,12 +1268,13 @@ def run_binding(ctx, quick, rng):
                                     "SeekMax": 3 if quick else 4, "index": {"MaxMembers": 3, "Names": 2, "sizes": [0, 1, 2]},
                                     "impl_layer": ("shared mode: MaxData 2; by-name mode: MaxData 1, SeekMax 2" if quick
                                                    else "both modes: MaxData 3, SeekMax 4")}
-    missing = [o for o in ("read", "readn", "readline", "readlinen", "readlines", "seek", "tell") if not ops_count.get(o)]
+    missing = [o for o in ("read", "readn", "readline", "readlinen", "readlines", "seek", "tell", "iter") if not ops_count.get(o)]
     if not nedges or missing:
         raise core.MachineryError("reference LTS incomplete: %d EDGE lines, actions never taken: %r" % (nedges, missing))
 
     modes = ["shared", "byname"]
     n_replayed = 0
+    phase("tlc_emission")
 
     # 2'. replay the index cases
     seen = set()
@@ -944,27 +1286,48 @@ def run_binding(ctx, quick, rng):
             idx_cases.append(c)
     idx_cases.sort(key=lambda c: skey(c["a"]))
     nidx = 0
+    big_counts = 0
     for ci, c in enumerate(idx_cases):
         if len(ctx.violations) >= 5:
             break
         for j in range(2 if quick else 6):
             canonical = j == 0
-            two = [NAME_POOL[0], NAME_POOL[1]] if canonical else rng.sample(NAME_POOL + [NAME16], 2)
+            encoding = errors = None
+            repeat = 1
+            if canonical:
+                two = [{"name": NAME_POOL[0], "raw": None}, {"name": NAME_POOL[1], "raw": None}]
+            elif (ci + j) % 3 == 0:       # text names beyond ASCII (consecutive entries: NFC/NFD twins etc.)
+                ex = exotic_names(rng)
+                _, encoding, errors = ex[rng.randrange(len(ex))]
+                grp = [r for (r, e, x) in ex if (e, x) == (encoding, errors)]
+                a = rng.randrange(len(grp))
+                raws = [grp[a], grp[(a + 1) % len(grp)]] if len(grp) > 1 else [grp[0], b"plain"]
+                two = [{"name": decode_name(r, encoding, errors), "raw": r} for r in raws]
+                if two[0]["name"] == two[1]["name"]:
+                    two[1] = {"name": "plain", "raw": None}
+            else:
+                two = [{"name": x, "raw": None} for x in rng.sample(NAME_POOL + [NAME16], 2)]
+            if not canonical and c["a"]:
+                if ci % 40 == 7:          # count stress: ~100 members
+                    repeat = 34
+                elif ci in ((60, 200) if quick else (20, 60, 100, 140, 200, 240)) and j == 1:
+                    repeat = 334          # ~1000 members
             names_of = {1: two[0], 2: two[1]}
-            conc = Conc(rng, [m["data"] for m in c["a"]], canonical, names=[names_of[m["name"]] for m in c["a"]])
-            if NAME16 in two and conc.arch.style != "bsd":
-                conc.arch = Arch(conc.arch.members, "bsd")
+            conc = Conc(rng, [m["data"] for m in c["a"]], canonical, names=[names_of[m["name"]] for m in c["a"]],
+                        repeat=repeat, encoding=encoding, errors=errors)
+            exp = conc.index_exp(c["idx"])
             mode = modes[(ci + j) % 2]
-            msg = check_index(ctx, conc.arch, mode, c["idx"], names_of)
-            conc.arch.drop()
+            msg = check_index(ctx, conc.arch, mode, exp)
             nidx += 1
+            big_counts += repeat > 1
             ctx.case_seen(("index", skey(c["a"]), j), True)
             if msg:
-                ctx.violation({"kind": "index", "arch": conc.arch.to_json(), "mode": mode, "idx": c["idx"],
-                               "names_of": {str(a): b for a, b in names_of.items()}},
-                              "%s mode, %s-style archive with members %r: %s"
-                              % (mode, conc.arch.style, [(m["name"], len(m["data"])) for m in conc.arch.members], msg))
+                ctx.violation({"kind": "index", "arch": conc.arch.to_json(), "mode": mode, "idx": exp, "model": c},
+                              "%s mode, %s-style archive (encoding=%r, errors=%r) with %d members %s: %s"
+                              % (mode, conc.arch.style, encoding, errors, len(conc.arch.members),
+                                 short([(m["name"], len(m["data"])) for m in conc.arch.members], 300), msg))
                 break
+    ctx.extra["index_cases_with_100_or_1000_members"] = big_counts
     ctx.extra["index_cases"] = len(idx_cases)
     ctx.extra["index_replays"] = nidx
     n_replayed += nidx
@@ -974,18 +1337,27 @@ def run_binding(ctx, quick, rng):
 
     # 2''. process-level layer: what a by-name archive reads must not depend on what the process
     #      opened under the same path before (ArMemberProc: complete LTS + walks replayed on real files)
+    phase("index_replay")
     n_replayed += proc_leg(ctx, quick, rng)
+    phase("process_layer")
 
     # 3a. every transition of the LTS, both opening modes, canonical + random concretizations
     nconc = 2 if quick else 3
     nwalk, wlen = (6, 16) if quick else (40, 30)
     nwalks = 0
     npaths2 = 0
+    nbigk = 0
+    ai = 0
     for k, (cells, g) in archives.items():
         if len(ctx.violations) >= 5:
             break
         concs = [Conc(rng, cells, canonical=(j == 0)) for j in range(nconc)]
-        paths = g.paths()
+        paths = paths_without(g, "iter")      # list(member) only ever as the LAST call of a replay: after
+        ai += 1                               # the known deviation the real position leaves the model
+        ncell = sum(len(d) for d in cells)
+        bigk = [x for x in BIG_K if x * ncell <= (4 << 20) and (x < 500000 or ncell <= 2)]
+        bigconc = Conc(rng, cells, K=bigk[ai % len(bigk)]) if ncell else None
+        every = 37 if quick else 11
 
         def replay_path(path, conc, mode, what, unspecified=()):
             ops = [conc.op(e) for e in path]
@@ -1011,34 +1383,42 @@ def run_binding(ctx, quick, rng):
                         break
                 if bad:
                     break
+            if not bad and bigconc is not None and idx % every == ai % every:
+                n_replayed += 1               # size stress: the same abstract case with K-byte cells
+                nbigk += 1
+                if replay_path(path, bigconc, modes[(idx + ai) % 2], "transition (size stress)"):
+                    bad = True
             ctx.case_seen(("edge", k, e["_f"], e["op"], skey(e["args"])), e["from"] != e["to"] or bool(e["res"]["v"]))
             if bad:
                 break
         # 3b. random walks: long interleaved histories
         if cells and not bad:
             for w in range(nwalk):
-                conc = concs[w % len(concs)] if w % 3 else Conc(rng, cells)
-                path = g.walk(rng, g.init, wlen, weight=lambda x: 3 if x["from"] != x["to"] else 1)
+                conc = concs[w % len(concs)] if w % 3 else (bigconc if w == 3 and bigconc is not None else Conc(rng, cells))
+                path = g.walk(rng, g.init, wlen, weight=lambda x: 0 if x["op"] == "iter" else 3 if x["from"] != x["to"] else 1)
+                if w % 2 and path:            # end with list(member) / for line in member
+                    its = [x for x in g.out.get(path[-1]["_t"], []) if x["op"] == "iter"]
+                    if its:
+                        path = path + [rng.choice(its)]
                 mode = modes[w % 2]
                 n_replayed += 1
                 nwalks += 1
                 ctx.case_seen(("walk", k, w), True)
-                unspec = [(rng.randrange(len(cells)), rng.choice(["read0", "seekneg", "readlines-hint"]))]
+                unspec = [(rng.randrange(len(cells)), rng.choice(["read0", "seekneg", "seekwhence3"]))]
                 if replay_path(path, conc, mode, "walk", unspec):
                     bad = True
                     break
-                if conc not in concs:
-                    conc.arch.drop()
         # 3c. thorough: all paths of depth 2 from the initial state (canonical concretization)
         if not quick and cells and not bad:
             for path in g.all_paths(2):
+                if path[0]["op"] == "iter":
+                    continue
                 mode = modes[npaths2 % 2]
                 npaths2 += 1
                 n_replayed += 1
                 if replay_path(path, concs[0], mode, "path"):
                     break
-        for c in concs:
-            c.arch.drop()
+    ctx.extra["size_stress_replays_K"] = nbigk
     ctx.evaluations += npaths2
     ctx.extra["walks"] = nwalks
     ctx.extra["unspecified_calls_executed"] = nwalks
@@ -1052,32 +1432,52 @@ def run_binding(ctx, quick, rng):
         e = [x for x in g.edges if x["res"]["v"] and x["res"]["v"][0]][:1] or g.edges[:1]
         ctx.sample("lts edge: archive %s %s  -> concrete call %r" % (json.dumps(cells), json.dumps(strip(e[0]), separators=(",", ":")), conc.op(e[0])))
 
+    phase("lts_replay")
     # 4. code -> spec: random histories on larger archives, validated by TLC
     ntr, nops = (300, 25) if quick else (4000, 30)
     jobs = []
     for i in range(ntr):
-        arch = random_arch(rng)
-        jobs.append((arch, modes[i % 2], random_calls(rng, [m["data"] for m in arch.members], nops)))
-    traces = trace_leg(ctx, jobs, "random")
-    for arch, _, _ in jobs:
-        arch.drop()
+        if i in (5, 150) or (not quick and i % 400 == 7):
+            arch = random_arch(rng, nmembers=rng.choice([99, 100, 101]))      # count stress
+        else:
+            arch = random_arch(rng, maxlen=64 if i % 10 else 257)
+        jobs.append((arch, modes[i % 2], nops))
+    traces = trace_leg(ctx, jobs, "random", rng)
     if traces:
-        t = max(traces[:20], key=lambda t: len(t["mem"]))
+        t = max(traces[:20], key=lambda t: len(t["mem"]) if len(t["mem"]) < 20 else 0)
         ctx.sample("recorded trace (layout, first 3 events): " + json.dumps(
             {"mem": [{"name": m["name"], "size": len(m["data"])} for m in t["mem"]], "events": t["events"][:3]}, separators=(",", ":")))
+
+    phase("trace_leg")
+    # 4'. size stress beyond what TLC can scan (judged against io.BytesIO)
+    n_big = big_leg(ctx, rng, 30 if quick else 400, 40 if quick else 60)
+    ctx.traces += n_big
+    phase("size_stress_leg")
 
     # 5. thorough: archives written by ar(1)
     if not quick:
         if os.path.exists(AR_BIN):
             jobs = []
             for i in range(150):
-                arch = ar_binary_archive(ctx, rng, i)
-                calls = random_calls(rng, [m["data"] for m in arch.members], 25)
-                jobs.append((arch, modes[i % 2], calls))
-            trace_leg(ctx, jobs, "ar_binary")
+                jobs.append((ar_binary_archive(ctx, rng, i), modes[i % 2], 25))
+            trace_leg(ctx, jobs, "ar_binary", rng)
             ctx.extra["ar_binary"] = "archives written by %s qcUS" % AR_BIN
         else:
             ctx.extra["ar_binary"] = "skipped: %s not present" % AR_BIN
+
+
+def paths_without(g, op):
+    """shortest path from the initial state to every state, not using edges of action `op`"""
+    from collections import deque
+    p = {g.init: []}
+    q = deque([g.init])
+    while q:
+        st = q.popleft()
+        for e in g.out.get(st, []):
+            if e["op"] != op and e["_t"] not in p:
+                p[e["_t"]] = p[st] + [e]
+                q.append(e["_t"])
+    return p
 
 
 def replay(ctx, case):
@@ -1109,12 +1509,15 @@ def replay(ctx, case):
         if case["kind"] == "ops":
             return run_ops(ctx, arch, case["mode"], case["ops"])
         if case["kind"] == "index":
-            return check_index(ctx, arch, case["mode"], case["idx"], {int(a): b for a, b in case["names_of"].items()})
+            return check_index(ctx, arch, case["mode"], case["idx"])
         if case["kind"] == "calls":
             calls = [(c[0], c[1], c[2]) for c in case["calls"]]
-            t, omsg = record(ctx, arch, case["mode"], calls)
+            big = bool(case.get("big"))
+            t, omsg, _ = record(ctx, arch, case["mode"], calls, big=big, log=not big)
             if omsg:
                 return omsg
+            if big:
+                return None
             rejected, info = validate(ctx, [t], with_controls=False)
             if rejected:
                 return "history still not explained by the specification at event %d" % (info.get(1, 0) + 1)
